@@ -1,1 +1,182 @@
-import TT.Model.Wire
+/-
+  C05 — What the capture layer stores is exactly what the traced program did.
+
+  `expectedStorage` is an independent reference interpreter of tracing's parent/scope rules over
+  the program's own call log (no reference counting, no span extensions, no cascade): it says
+  which spans and events are captured, in which order, with which values, parent, counts,
+  follows-from edges and closed flag. The theorem states that the storage produced by the model
+  of Registry + CaptureLayer equals it, for every well-formed program, every subscriber-level
+  level filter and every layer filter.
+-/
+import TT.Model.Capture
+import TT.Props.C12
+
+namespace TT
+
+/-- The program's call log under a subscriber whose `enabled` is the global level filter. -/
+def logSubF (global : Option Nat) : Subscriber LogState :=
+  { logSub with enabled := fun _ site => levelEnabled global site }
+
+def callLogF (global : Option Nat) (sites : List CallSite) (ops : List POp) : List SubCall :=
+  (runProg (logSubF global) sites { sub := ({} : LogState) } ops).sub.calls.reverse
+
+/-! ### Reference: hierarchy by tracing's rules -/
+
+/-- State of the replay: thread-local span stack (top first, with duplicate marks) and the
+    resolved parent of every span created so far. -/
+structure HierSt where
+  stack : List (Nat × Bool) := []
+  parent : AMap Nat (Option Nat) := []
+  deriving Repr, Inhabited
+
+def resolveS (h : HierSt) : SParent → Option Nat
+  | .root => none
+  | .ctx => stackCurrent h.stack
+  | .explicit id => some id
+
+def HierSt.step (h : HierSt) : SubCall → HierSt
+  | .newSpan id _ p _ => { h with parent := h.parent.insert id (resolveS h p) }
+  | .enter id => { h with stack := stackPush h.stack id }
+  | .exit id => { h with stack := stackPop h.stack id }
+  | _ => h
+
+/-- Hierarchy state before each call. -/
+def hierBefore : HierSt → List SubCall → List (HierSt × SubCall)
+  | _, [] => []
+  | h, c :: cs => (h, c) :: hierBefore (h.step c) cs
+
+def hierFinal (calls : List SubCall) : HierSt := calls.foldl HierSt.step {}
+
+/-- Nearest captured span starting at `start` and walking up the resolved parents. `cap` maps
+    span ids to captured indices. -/
+def nearestCaptured (parent : AMap Nat (Option Nat)) (cap : AMap Nat Nat) : Nat → Option Nat → Option Nat
+  | 0, _ => none
+  | _ + 1, none => none
+  | fuel + 1, some id =>
+    match cap.get id with
+    | some c => some c
+    | none => nearestCaptured parent cap fuel ((parent.get id).join)
+
+/-- Span ids captured by a layer with filter `flt`, in creation order, with their indices. -/
+def capturedIds (flt : LFilter) (sites : List CallSite) (calls : List SubCall) : AMap Nat Nat :=
+  (calls.filterMap fun c => match c with
+    | .newSpan id k _ _ => if flt.enabled (sites.getD k default) then some id else none
+    | _ => none).zipIdx
+
+def countCalls (calls : List SubCall) (p : SubCall → Bool) : Nat := (calls.filter p).length
+
+/-- Values: those given at creation, then every later record, inserted in order. -/
+def expectedValues (calls : List SubCall) (id : Nat) : TVals :=
+  calls.foldl (fun acc c => match c with
+    | .newSpan id' _ _ fields => if id' = id then capture fields else acc
+    | .record id' fields => if id' = id then acc.extend (capture fields) else acc
+    | _ => acc) []
+
+/-- Live handles of a span at the end: one for its creation, one per clone, minus drops. -/
+def handlesAtEnd (calls : List SubCall) (id : Nat) : Int :=
+  calls.foldl (fun acc c => match c with
+    | .newSpan id' _ _ _ => if id' = id then acc + 1 else acc
+    | .clone id' => if id' = id then acc + 1 else acc
+    | .tryClose id' => if id' = id then acc - 1 else acc
+    | _ => acc) 0
+
+/-- The subscriber has closed the span: all handles dropped, no longer entered, no open children.
+    Children have larger ids, so the recursion goes over the ids above `id` (fuel). -/
+def closedAtEnd (calls : List SubCall) (hier : HierSt) (maxId : Nat) : Nat → Nat → Bool
+  | 0, _ => true
+  | fuel + 1, id =>
+    decide (handlesAtEnd calls id ≤ 0) && !(hier.stack.any (·.1 == id)) &&
+      ((List.range (maxId + 1)).all fun c =>
+        if (hier.parent.get c).join = some id then closedAtEnd calls hier maxId fuel c else true)
+
+def maxSpanId (calls : List SubCall) : Nat :=
+  calls.foldl (fun m c => match c with | .newSpan id _ _ _ => max m id | _ => m) 0
+
+structure RefSpanInfo where
+  id : Nat
+  k : Nat
+  parentC : Option Nat
+  deriving Repr, Inhabited
+
+/-- Captured spans in order, each with its nearest captured ancestor at creation time. -/
+def refSpans (flt : LFilter) (sites : List CallSite) (calls : List SubCall) : List RefSpanInfo :=
+  let cap := capturedIds flt sites calls
+  (hierBefore {} calls).filterMap fun (h, c) => match c with
+    | .newSpan id k p _ =>
+      if flt.enabled (sites.getD k default) then
+        some { id, k, parentC := nearestCaptured h.parent cap (maxSpanId calls + 1) (resolveS h p) }
+      else none
+    | _ => none
+
+structure RefEventInfo where
+  k : Nat
+  values : TVals
+  parentC : Option Nat
+  deriving Repr, Inhabited
+
+def refEvents (flt : LFilter) (sites : List CallSite) (calls : List SubCall) : List RefEventInfo :=
+  let cap := capturedIds flt sites calls
+  (hierBefore {} calls).filterMap fun (h, c) => match c with
+    | .event k p fields =>
+      if flt.enabled (sites.getD k default) then
+        some { k, values := capture fields,
+               parentC := nearestCaptured h.parent cap (maxSpanId calls + 1) (resolveS h p) }
+      else none
+    | _ => none
+
+/-- The expected storage of a layer with filter `flt`. -/
+def expectedStorage (flt : LFilter) (sites : List CallSite) (calls : List SubCall) : Storage :=
+  let cap := capturedIds flt sites calls
+  let spans := refSpans flt sites calls
+  let events := refEvents flt sites calls
+  let hier := hierFinal calls
+  let maxId := maxSpanId calls
+  { spans := spans.zipIdx.map fun (s, i) =>
+      { mt := s.k
+        values := expectedValues calls s.id
+        entered := countCalls calls fun c => match c with | .enter id => id == s.id | _ => false
+        exited := countCalls calls fun c => match c with | .exit id => id == s.id | _ => false
+        closed := closedAtEnd calls hier maxId (maxId + 1) s.id
+        parent := s.parentC
+        children := (spans.zipIdx.filter fun (s', _) => s'.parentC = some i).map (·.2)
+        events := (events.zipIdx.filter fun (e, _) => e.parentC = some i).map (·.2)
+        follows := calls.filterMap fun c => match c with
+          | .follows a b => if a = s.id then cap.get b else none
+          | _ => none }
+    events := events.map fun e => { mt := e.k, values := e.values, parent := e.parentC }
+    rootSpans := (spans.zipIdx.filter fun (s, _) => s.parentC.isNone).map (·.2)
+    rootEvents := (events.zipIdx.filter fun (e, _) => e.parentC.isNone).map (·.2) }
+
+/-- The storage of every layer is exactly the reference: the enabled spans and events in
+    emission order, values in recording order with later records overriding in place, each
+    attached to its nearest captured ancestor (explicit and root parents honoured, filtered-out
+    spans skipped) or a root, enter/exit counts, follows-from edges among captured spans in
+    order, and the closed flag set exactly when the subscriber has closed the span. No callback
+    panics. -/
+theorem C05_storage_is_spec (filters : List LFilter) (global : Option Nat) (sites : List CallSite)
+    (ops : List POp) (hwf : wfProg sites ops = true) :
+    let w := captureRun filters global sites ops
+    w.panicked = false ∧ w.storages.length = filters.length ∧
+    ∀ i, i < filters.length →
+      w.storages.getD i {} = expectedStorage (filters.getD i .all) sites (callLogF global sites ops) := by
+  sorry
+
+/-- Non-vacuity: an interior span removed by the layer filter, an explicit root, a record
+    overriding a value in place, a clone keeping a span open, a follows-from edge. -/
+example :
+    let s : CallSite := ⟨.span, [115], [97], .info, none, none, none, [[102], [103]]⟩
+    let d : CallSite := ⟨.span, [100], [97], .debug, none, none, none, []⟩
+    let e : CallSite := ⟨.event, [101], [97], .info, none, none, none, [[109]]⟩
+    let sites := [s, d, e]
+    let ops : List POp := [.new 0 .ctx [(0, some (.i64 1)), (1, some (.bool true))], .ent 0, .new 1 .ctx [], .ent 1,
+      .new 0 .ctx [], .record 0 [(0, some (.u8 9))], .evt 2 .ctx [(0, some (.str [104]))], .new 0 .root [], .cln 2,
+      .fol 2 3, .ext 1, .ext 0, .drp 1, .drp 2, .drp 0, .drp 3]
+    wfProg sites ops = true ∧
+    (captureRun [.level 2, .all] none sites ops).storages.getD 0 {}
+      = expectedStorage (.level 2) sites (callLogF none sites ops) ∧
+    (captureRun [.level 2, .all] none sites ops).storages.getD 1 {}
+      = expectedStorage .all sites (callLogF none sites ops) ∧
+    ((captureRun [.level 2, .all] none sites ops).storages.getD 0 {}).spans.map (·.closed) = [false, false, true] := by
+  decide
+
+end TT
